@@ -1,2 +1,472 @@
-use crate::ctx::Ctx;
-pub fn run_c20(_ctx: &mut Ctx) { unimplemented!() }
+//! C20: constructors and conversions preserve contents and reject bad shapes; clone / Eq / Hash.
+use crate::ctx::*;
+use crate::elem::*;
+use crate::model::*;
+use crate::monitor::*;
+use std::collections::HashSet;
+use toodee::*;
+
+fn nsel(ctx: &Ctx, miri_q: usize, miri_t: usize, vg: usize, quick: usize, thorough: usize) -> usize {
+    match (ctx.scale, ctx.tier) {
+        (Scale::Miri, Tier::Quick) => miri_q,
+        (Scale::Miri, Tier::Thorough) => miri_t,
+        (Scale::Vg, _) => vg,
+        (Scale::Native, Tier::Quick) => quick,
+        (Scale::Native, Tier::Thorough) => thorough,
+    }
+}
+
+#[derive(Clone, Copy, Debug, Hash, PartialEq, Eq)]
+enum Ctor {
+    New,
+    Init,
+    FromVec,
+    FromBox,
+    ViewNew,
+    ViewMutNew,
+}
+
+fn dim_class(d: usize, n: usize) -> u8 {
+    if d == 0 {
+        0
+    } else if d <= n {
+        1
+    } else {
+        2
+    }
+}
+
+fn ctor_owned<T: Elem + Clone + Default>(ctx: &mut Ctx, k: Ctor, c: usize, r: usize, blen: usize, n: usize) {
+    ledger_reset();
+    kv_reset();
+    let prod = c.checked_mul(r);
+    let zero_rule_bad = (c == 0) != (r == 0);
+    let valid = prod.is_some() && !zero_rule_bad && (matches!(k, Ctor::New | Ctor::Init) || prod == Some(blen));
+    if valid && matches!(k, Ctor::New | Ctor::Init) && prod.unwrap() > 4096 {
+        return;
+    }
+    // `new`/`init` with a huge product that does not overflow would try to allocate: only must-reject
+    // requests and small accepted ones are in the space
+    if matches!(k, Ctor::New | Ctor::Init) && !valid && prod.map_or(false, |p| p > 4096) && !zero_rule_bad {
+        return;
+    }
+    let opn = match k {
+        Ctor::New => "new",
+        Ctor::Init => "init",
+        Ctor::FromVec => "from_vec",
+        _ => "from_box",
+    };
+    let what = format!("{}({}, {}) buffer len {} ({})", opn, c, r, blen, T::NAME);
+    ctx.count("calls", 1);
+    let seed_val = T::fresh(77);
+    let seed_mc = mc(&seed_val);
+    let mut buf_mc: Vec<Mc> = vec![];
+    let res = match k {
+        Ctor::New => catches(|| TooDee::<T>::new(c, r)),
+        Ctor::Init => {
+            let sv = seed_val.clone();
+            catches(move || TooDee::<T>::init(c, r, sv))
+        }
+        Ctor::FromVec => {
+            let mut buf: Vec<T> = Vec::with_capacity(blen + 3);
+            buf.extend((0..blen).map(|i| T::fresh(10 + (i % 4) as u32)));
+            buf_mc = buf.iter().map(mc).collect();
+            catches(move || TooDee::from_vec(c, r, buf))
+        }
+        _ => {
+            let buf: Vec<T> = (0..blen).map(|i| T::fresh(10 + (i % 4) as u32)).collect();
+            buf_mc = buf.iter().map(mc).collect();
+            catches(move || TooDee::from_box(c, r, buf.into_boxed_slice()))
+        }
+    };
+    match (valid, res) {
+        (true, Ok(a)) => {
+            ctx.count("accepted", 1);
+            let p = prod.unwrap();
+            let flat: Vec<Mc> = match k {
+                Ctor::New => (0..p).map(|_| Mc { uid: FRESH, key: 0 }).collect(),
+                Ctor::Init => (0..p).map(|_| if T::CLONE_KEEPS_UID { seed_mc } else { Mc { uid: FRESH, key: seed_mc.key } }).collect(),
+                _ => buf_mc.clone(),
+            };
+            let mut g = if p == 0 { Grid::empty() } else { Grid::from_flat(c, r, &flat) };
+            let ok = check_shape(ctx, opn, &a, &mut g) & check_tokens(ctx, opn, &a, &HashSet::new()) & check_double_drops(ctx, opn);
+            if ok {
+                ctx.nontrivial(("ctor", k, dim_class(c, n), dim_class(r, n), c.min(n + 1), r.min(n + 1), blen.min(99), T::NAME, true));
+            }
+            drop(a);
+            drop(seed_val);
+            check_double_drops(ctx, opn);
+            check_no_leak(ctx, opn);
+        }
+        (false, Err(_)) => {
+            ctx.count("rejected", 1);
+            check_double_drops(ctx, opn);
+            ctx.nontrivial(("ctor", k, dim_class(c, n), dim_class(r, n), c.min(n + 1), r.min(n + 1), blen.min(99), T::NAME, false));
+        }
+        (true, Err(m)) => ctx.violation(opn, "valid-call-panicked", format!("{}: {}", what, m)),
+        (false, Ok(a)) => {
+            ctx.violation(opn, "invalid-call-accepted", format!("{}: returned an array of size {:?} with {} cells", what, a.size(), a.data().len()));
+        }
+    }
+    ledger_counts(ctx);
+}
+
+fn ctor_view(ctx: &mut Ctx, k: Ctor, c: usize, r: usize, blen: usize, n: usize) {
+    let prod = c.checked_mul(r);
+    let zero_rule_bad = (c == 0) != (r == 0);
+    let valid = prod.map_or(false, |p| p <= blen) && !zero_rule_bad;
+    let opn = if k == Ctor::ViewNew { "TooDeeView::new" } else { "TooDeeViewMut::new" };
+    let what = format!("{}({}, {}) slice len {}", opn, c, r, blen);
+    ctx.count("calls", 1);
+    let mut buf: Vec<u32> = (0..blen as u32).collect();
+    let base = buf.as_ptr() as usize;
+    let chk = |ctx: &mut Ctx, size: (usize, usize), rows: Vec<(usize, usize)>, first: Option<usize>| -> bool {
+        let p = prod.unwrap();
+        let mut ok = true;
+        if size != (if p == 0 { (0, 0) } else { (c, r) }) {
+            ctx.violation(opn, "ctor:size", format!("{}: size {:?}", what, size));
+            ok = false;
+        }
+        let want: Vec<(usize, usize)> = (0..if p == 0 { 0 } else { r }).map(|i| (base + i * c * 4, c)).collect();
+        if rows != want {
+            ctx.violation(opn, "ctor:rows", format!("{}: rows {:x?} expected {:x?}", what, rows, want));
+            ok = false;
+        }
+        if p > 0 && first != Some(base) {
+            ctx.violation(opn, "ctor:first-cell", what.clone());
+            ok = false;
+        }
+        ok
+    };
+    let res = if k == Ctor::ViewNew {
+        catches(|| {
+            let v = TooDeeView::new(c, r, &buf);
+            (v.size(), v.rows().map(|x| (x.as_ptr() as usize, x.len())).collect::<Vec<_>>(), if v.is_empty() { None } else { Some(&v[(0, 0)] as *const u32 as usize) })
+        })
+    } else {
+        catches(|| {
+            let v = TooDeeViewMut::new(c, r, &mut buf);
+            (v.size(), v.rows().map(|x| (x.as_ptr() as usize, x.len())).collect::<Vec<_>>(), if v.is_empty() { None } else { Some(&v[(0, 0)] as *const u32 as usize) })
+        })
+    };
+    match (valid, res) {
+        (true, Ok((size, rows, first))) => {
+            ctx.count("accepted", 1);
+            if chk(ctx, size, rows, first) {
+                ctx.nontrivial(("ctor", k, dim_class(c, n), dim_class(r, n), c.min(n + 1), r.min(n + 1), blen.min(99), true));
+            }
+        }
+        (false, Err(_)) => {
+            ctx.count("rejected", 1);
+            ctx.nontrivial(("ctor", k, dim_class(c, n), dim_class(r, n), c.min(n + 1), r.min(n + 1), blen.min(99), false));
+        }
+        (true, Err(m)) => ctx.violation(opn, "valid-call-panicked", format!("{}: {}", what, m)),
+        (false, Ok((size, _, _))) => ctx.violation(opn, "invalid-call-accepted", format!("{}: returned a view of size {:?}", what, size)),
+    }
+}
+
+fn key_of(c: usize, r: usize) -> u32 {
+    ((c * 7 + r * 3) % 5) as u32
+}
+
+/// From<view>, From<view_mut> for every window of a parent.
+fn from_view_case<T: Elem + Clone>(ctx: &mut Ctx, pshape: (usize, usize)) {
+    for (s, e) in windows(pshape.0, pshape.1) {
+        for m in [false, true] {
+            ledger_reset();
+            kv_reset();
+            let (mut parent, pg) = build::<T>(pshape.0, pshape.1, &key_of);
+            let wg = pg.window(s, e).unwrap();
+            let opn = if m { "From<TooDeeViewMut>" } else { "From<TooDeeView>" };
+            let res = catches(|| if m { TooDee::from(parent.view_mut(s, e)) } else { TooDee::from(parent.view(s, e)) });
+            ctx.count("calls", 1);
+            match res {
+                Err(msg) => ctx.violation(opn, "valid-call-panicked", format!("window {:?} of {:?}: {}", (s, e), pshape, msg)),
+                Ok(a) => {
+                    let mut g = wg.clone();
+                    if !T::CLONE_KEEPS_UID {
+                        for row in &mut g.cells {
+                            for cell in row.iter_mut() {
+                                cell.uid = FRESH;
+                            }
+                        }
+                    }
+                    let mut ok = check_shape(ctx, opn, &a, &mut g) & check_tokens(ctx, opn, &a, &HashSet::new());
+                    // independent of the parent: no shared owners, parent unchanged
+                    if T::OWNS && !T::IS_ZST {
+                        let pids: HashSet<u64> = parent.data().iter().map(|t| t.uid()).collect();
+                        if a.data().iter().any(|t| pids.contains(&t.uid())) {
+                            ctx.violation(opn, "clone:shares-owner", format!("window {:?} of {:?}", (s, e), pshape));
+                            ok = false;
+                        }
+                    }
+                    let mut pg2 = pg.clone();
+                    ok &= check_shape(ctx, opn, &parent, &mut pg2);
+                    if ok {
+                        ctx.nontrivial(("fromview", m, pshape, s, e, T::NAME));
+                    }
+                    drop(a);
+                }
+            }
+            drop(parent);
+            check_double_drops(ctx, opn);
+            check_no_leak(ctx, opn);
+            ledger_counts(ctx);
+        }
+    }
+}
+
+/// Conversions out of an owned array + clone.
+fn conv_case<T: Elem + Clone + PartialEq>(ctx: &mut Ctx, shape: (usize, usize)) {
+    let (c, r) = shape;
+    // Vec::from, Box::from, AsRef
+    for which in 0..4 {
+        ledger_reset();
+        kv_reset();
+        let (mut a0, g) = build::<T>(c, r, &key_of);
+        if which % 2 == 1 {
+            a0.reserve(5);
+        }
+        let mut keep: Option<TooDee<T>> = None;
+        let want = g.flat();
+        let opn = ["Vec::from", "Box::from", "AsRef<[T]>", "AsRef<Vec<T>>/AsMut"][which];
+        ctx.count("calls", 1);
+        let got: Vec<Mc> = match which {
+            0 => {
+                let v: Vec<T> = a0.into();
+                v.iter().map(mc).collect()
+            }
+            1 => {
+                let b: Box<[T]> = a0.into();
+                b.iter().map(mc).collect()
+            }
+            2 => {
+                let a = keep.insert(a0);
+                let s: &[T] = a.as_ref();
+                let base_ok = s.as_ptr() == a.data().as_ptr();
+                if !base_ok {
+                    ctx.violation(opn, "conv:not-same-buffer", format!("{:?}", shape));
+                }
+                s.iter().map(mc).collect()
+            }
+            _ => {
+                let a = keep.insert(a0);
+                let v: &Vec<T> = a.as_ref();
+                let x: Vec<Mc> = v.iter().map(mc).collect();
+                let ms: &mut [T] = a.as_mut();
+                if ms.len() != x.len() || ms.as_ptr() != a.data().as_ptr() {
+                    ctx.violation(opn, "conv:not-same-buffer", format!("{:?}", shape));
+                }
+                x
+            }
+        };
+        if !T::IS_ZST && got != want || got.len() != want.len() {
+            ctx.violation(opn, "conv:cells", format!("shape {:?}: {:?} expected {:?}", shape, got, want));
+        } else {
+            ctx.nontrivial(("conv", which, shape, T::NAME));
+        }
+        drop(keep);
+        check_double_drops(ctx, opn);
+        check_no_leak(ctx, opn);
+    }
+    // into_iter consumed (front, back) then dropped
+    let n = c * r;
+    for front in 0..=n.min(4) {
+        for back in 0..=(n - front).min(3) {
+            ledger_reset();
+            kv_reset();
+            let (a, g) = build::<T>(c, r, &key_of);
+            let want = g.flat();
+            let mut it = a.into_iter();
+            let mut held = vec![];
+            let mut ok = it.len() == n;
+            for i in 0..front {
+                match it.next() {
+                    Some(x) => {
+                        ok &= T::IS_ZST || mc(&x) == want[i];
+                        held.push(x)
+                    }
+                    None => ok = false,
+                }
+            }
+            for i in 0..back {
+                match it.next_back() {
+                    Some(x) => {
+                        ok &= T::IS_ZST || mc(&x) == want[n - 1 - i];
+                        held.push(x)
+                    }
+                    None => ok = false,
+                }
+            }
+            ok &= it.len() == n - front - back;
+            ctx.count("calls", 1);
+            if !ok {
+                ctx.violation("into_iter", "conv:cells", format!("shape {:?} front {} back {}", shape, front, back));
+            }
+            drop(it);
+            for h in &held {
+                if T::OWNS && !T::IS_ZST && !is_live(h.uid()) {
+                    ctx.violation("into_iter", "ledger:held-not-live", format!("id {}", h.uid()));
+                }
+            }
+            drop(held);
+            check_double_drops(ctx, "into_iter");
+            check_no_leak(ctx, "into_iter");
+            if ok {
+                ctx.nontrivial(("into_iter", shape, front, back, T::NAME));
+            }
+        }
+    }
+    // clone: equal and independent
+    {
+        ledger_reset();
+        kv_reset();
+        let (a, mut g) = build::<T>(c, r, &key_of);
+        let mut b = a.clone();
+        ctx.count("calls", 1);
+        let mut ok = true;
+        if !(a == b) || a.size() != b.size() {
+            ctx.violation("clone", "clone:not-equal", format!("{:?}", shape));
+            ok = false;
+        }
+        let mut gb = g.clone();
+        if !T::CLONE_KEEPS_UID {
+            for row in &mut gb.cells {
+                for cell in row.iter_mut() {
+                    cell.uid = FRESH;
+                }
+            }
+        }
+        ok &= check_shape(ctx, "clone", &b, &mut gb) & check_tokens(ctx, "clone", &b, &HashSet::new());
+        if n > 0 {
+            if b.data().as_ptr() == a.data().as_ptr() && std::mem::size_of::<T>() > 0 {
+                ctx.violation("clone", "clone:shares-buffer", format!("{:?}", shape));
+                ok = false;
+            }
+            if T::OWNS && !T::IS_ZST {
+                let ids: HashSet<u64> = a.data().iter().map(|t| t.uid()).collect();
+                if b.data().iter().any(|t| ids.contains(&t.uid())) {
+                    ctx.violation("clone", "clone:shares-owner", format!("{:?}", shape));
+                    ok = false;
+                }
+            }
+            // mutate the clone, the original must not move
+            b[(c - 1, r - 1)] = T::fresh(99);
+            b.swap((0, 0), (c - 1, r - 1));
+            ok &= check_shape(ctx, "clone", &a, &mut g);
+            if !T::IS_ZST && a == b && n > 0 {
+                ctx.violation("clone", "eq:differing-cell-equal", format!("{:?}", shape));
+                ok = false;
+            }
+        }
+        drop(a);
+        ok &= check_tokens(ctx, "clone", &b, &HashSet::new());
+        drop(b);
+        check_double_drops(ctx, "clone");
+        check_no_leak(ctx, "clone");
+        if ok {
+            ctx.nontrivial(("clone", shape, T::NAME));
+        }
+        ledger_counts(ctx);
+    }
+}
+
+fn hash_arr(a: &TooDee<Kv>) -> u64 {
+    hash_of(a)
+}
+
+/// a == b <=> same dims and same cells; a == b => hash(a) == hash(b)
+fn eq_hash_sweep(ctx: &mut Ctx, maxlen: usize) {
+    let mut arrs: Vec<(usize, usize, Vec<u32>, TooDee<Kv>)> = vec![];
+    for len in 0..=maxlen {
+        let shapes: Vec<(usize, usize)> = if len == 0 { vec![(0, 0)] } else { (1..=len).filter(|c| len % c == 0).map(|c| (c, len / c)).collect() };
+        for pat in 0..(1usize << len) {
+            let keys: Vec<u32> = (0..len).map(|i| ((pat >> i) & 1) as u32).collect();
+            for &(c, r) in &shapes {
+                let v: Vec<Kv> = keys.iter().map(|k| Kv::fresh(*k)).collect();
+                arrs.push((c, r, keys.clone(), TooDee::from_vec(c, r, v)));
+            }
+        }
+    }
+    let hashes: Vec<u64> = arrs.iter().map(|a| hash_arr(&a.3)).collect();
+    for (i, a) in arrs.iter().enumerate() {
+        for (j, b) in arrs.iter().enumerate() {
+            let want = a.0 == b.0 && a.1 == b.1 && a.2 == b.2;
+            let got = a.3 == b.3;
+            ctx.count("calls", 1);
+            if got != want || (a.3 != b.3) == want {
+                ctx.violation("eq", "eq:wrong", format!("{}x{} {:?} vs {}x{} {:?}: == is {}", a.0, a.1, a.2, b.0, b.1, b.2, got));
+            } else if got && hashes[i] != hashes[j] {
+                ctx.violation("hash", "hash:equal-arrays-differ", format!("{}x{} {:?}", a.0, a.1, a.2));
+            } else if (a.2 == b.2) != want || got {
+                // pairs that share contents but not shape, and genuinely equal pairs, are the interesting ones
+                ctx.nontrivial(("eq", a.0, a.1, &a.2, b.0, b.1, &b.2));
+            }
+        }
+    }
+    ctx.count("eq_pairs", (arrs.len() * arrs.len()) as u64);
+}
+
+pub fn run_c20(ctx: &mut Ctx) {
+    let n = nsel(ctx, 2, 3, 3, 6, 10);
+    let mut dims: Vec<usize> = (0..=n).collect();
+    dims.extend([usize::MAX, usize::MAX / 2 + 1, 1usize << 32, (1usize << 32) + 1, 1usize << 63]);
+    for &c in &dims {
+        for &r in &dims {
+            if !ctx.case(|| format!("C20 ctor dims=({},{})", c, r)) {
+                if ctx.done() {
+                    return;
+                }
+                continue;
+            }
+            let prod = c.checked_mul(r);
+            let mut lens: Vec<usize> = vec![0, 1];
+            if let Some(p) = prod {
+                if p <= 4096 {
+                    lens.extend([p.saturating_sub(1), p, p + 1, p + 7]);
+                }
+            }
+            // lengths that equal the wrapped product
+            let wrapped = c.wrapping_mul(r);
+            if wrapped <= 4096 {
+                lens.push(wrapped);
+            }
+            lens.sort_unstable();
+            lens.dedup();
+            for &l in &lens {
+                for k in [Ctor::FromVec, Ctor::FromBox] {
+                    ctor_owned::<Kv>(ctx, k, c, r, l, n);
+                    ctor_owned::<Tok>(ctx, k, c, r, l, n);
+                    ctor_owned::<Zst>(ctx, k, c, r, l, n);
+                }
+                for k in [Ctor::ViewNew, Ctor::ViewMutNew] {
+                    ctor_view(ctx, k, c, r, l, n);
+                }
+            }
+            for k in [Ctor::New, Ctor::Init] {
+                ctor_owned::<Kv>(ctx, k, c, r, 0, n);
+                ctor_owned::<Tok>(ctx, k, c, r, 0, n);
+                ctor_owned::<Zst>(ctx, k, c, r, 0, n);
+            }
+        }
+    }
+    let nv = nsel(ctx, 2, 3, 3, 5, 7);
+    for shape in shapes(nv) {
+        if ctx.case(|| format!("C20 from-view parent={}x{}", shape.0, shape.1)) {
+            from_view_case::<Kv>(ctx, shape);
+            from_view_case::<Tok>(ctx, shape);
+        }
+        if ctx.case(|| format!("C20 conversions shape={}x{}", shape.0, shape.1)) {
+            conv_case::<Kv>(ctx, shape);
+            conv_case::<Tok>(ctx, shape);
+            conv_case::<Zst>(ctx, shape);
+        }
+        if ctx.done() {
+            return;
+        }
+    }
+    let ml = nsel(ctx, 3, 4, 4, 6, 8);
+    if ctx.case(|| format!("C20 eq/hash sweep up to {} cells", ml)) {
+        eq_hash_sweep(ctx, ml);
+    }
+}
